@@ -1519,10 +1519,26 @@ def _relation(w, r, fnode=None):
                 parts.append(_txt(n.value, 400))
     if wt in parts:
         return f"{wt} is stored into the returned {rt}"
-    # projection of the returned value: <r>.values, <r>.round(k), <r>[...]
+    # value-preserving projection of the returned value: <r>.values, <r>.to_numpy(), <r>[:, np.newaxis] (full slices / new axes only)
+    def full_index(sl):
+        xs = sl.elts if isinstance(sl, ast.Tuple) else [sl]
+        for x in xs:
+            if isinstance(x, ast.Slice) and x.lower is None and x.upper is None and x.step is None:
+                continue
+            if (isinstance(x, ast.Constant) and x.value is None) or _txt(x) in ("np.newaxis", "numpy.newaxis", "Ellipsis", "..."):
+                continue
+            return False
+        return True
     b = w
-    while isinstance(b, (ast.Attribute, ast.Subscript)) or (isinstance(b, ast.Call) and isinstance(b.func, ast.Attribute) and b.func.attr in ("round", "to_numpy", "join", "reset_index")):
-        b = b.func.value if isinstance(b, ast.Call) else b.value
+    while True:
+        if isinstance(b, ast.Attribute) and b.attr in ("values", "T"):
+            b = b.value
+        elif isinstance(b, ast.Subscript) and full_index(b.slice):
+            b = b.value
+        elif isinstance(b, ast.Call) and isinstance(b.func, ast.Attribute) and b.func.attr in ("to_numpy",) and not b.args:
+            b = b.func.value
+        else:
+            break
         bt = _txt(b, 400)
         if bt == rt:
             return f"projection {wt} of the returned {rt}"
@@ -1530,11 +1546,6 @@ def _relation(w, r, fnode=None):
             return f"projection {wt} of the element {bt} of the returned tuple"
         if bt in parts:
             return f"projection {wt} of {bt}, which is stored into the returned {rt}"
-    # written = a combination that contains the returned variable as an argument (e.g. df_q.join(results))
-    if isinstance(r, ast.Name) and any(isinstance(n, ast.Name) and n.id == r.id for n in ast.walk(w)):
-        return f"{wt} contains the returned {rt}"
-    if isinstance(w, ast.Name) and isinstance(r, (ast.Tuple, ast.List)) is False and any(isinstance(n, ast.Name) and n.id == w.id for n in ast.walk(r)):
-        return f"returned {rt} contains the written {wt}"
     return None
 
 
